@@ -24,6 +24,8 @@ def _log(token, phase="run"):
     if n > w.max_concurrency:
         w.max_concurrency = n
     w.concurrency_samples.append((w.steps, n, len([q for q in w.procs.values() if q.alive and q is not w.root])))
+    if w.sample_registered is not None:
+        w.sample_registered("body")
 
 
 def _done(token):
